@@ -12,3 +12,27 @@ Proof. exact compute_float_never_panics. Qed.
 Theorem bit_assembly_is_exact : forall f e, 0 <= e <= 2047 -> 0 <= f < 2 ^ 52 ->
   biased_fp_to_bits_f64 (f, e) = Some (f + e * 2 ^ 52).
 Proof. exact biased_fp_to_bits_ok. Qed.
+
+From SonicV Require Import Model.NormalFast.
+(* sonic-number/src/lib.rs parse_floating_normal_fast (the 19-digit fast path), as written in the source:
+   whenever it returns Some bits, for every decimal exponent the guard lets through and every non-zero
+   64-bit significand, bits = E * 2^52 + (q - 2^52) where q is the integer nearest (ties to even) to
+   man * 10^exp10 / 2^(E - 1075), 2^52 <= q <= 2^53 (q = 2^53 moves to the next binade) and 1 <= E <= 2045:
+   the correctly rounded, finite, normal binary64. Ties cannot occur on this path. *)
+Theorem normal_fast_path_is_correctly_rounded : forall e m raw, -307 < e < 288 -> 1 <= m < W64 ->
+  parse_floating_normal_fast e m = Some (Some raw) ->
+  exists E, 1 <= E <= 2045 /\
+    let q := nearest_scaled m e (E - 1075) in
+    4503599627370496 <= q <= 9007199254740992 /\ raw = assemble q E.
+Proof. exact normal_fast_correctly_rounded. Qed.
+(* what the function computes, with every overflow / shift / index check of the checked build discharged *)
+Theorem normal_fast_path_as_written : forall e m, -342 <= e <= 308 -> 1 <= m < W64 ->
+  parse_floating_normal_fast e m = nf_model e m.
+Proof. exact normal_fast_is_model. Qed.
+Theorem normal_fast_path_panic_condition : forall e m, -342 <= e <= 308 -> 1 <= m < W64 ->
+  parse_floating_normal_fast e m = None ->
+  exists s2 s2x, idx POWER_OF_FIVE_128_Z (e + 342) = Some (s2, s2x) /\
+    let s1 := m * 2 ^ leading_zeros 64 m in
+    ((s1 * s2) mod W64 + (s1 * s2x) / W64) mod W64 = W64 - 1 /\
+    (Z.land ((s1 * s2) / W64) 511 = 0 \/ Z.land ((s1 * s2) / W64) 511 = 511).
+Proof. exact normal_fast_panics_only_on_all_ones. Qed.
